@@ -164,11 +164,6 @@ const Prelude = `
 (define-fun wfslice ((s Slice)) Bool (and (<= 0 (soff s)) (<= 0 (slen s)) (<= (slen s) (scap s)) (=> (= (sarr s) nil) (= (scap s) 0))))
 (define-fun trunc_int ((x Real)) Int (ite (>= x 0.0) (to_int x) (- (to_int (- x)))))
 (define-fun absr ((x Real)) Real (ite (>= x 0.0) x (- x)))
-(declare-fun trunc8 (Real) Real)
-(assert (forall ((x Real)) (! (and (<= (absr (trunc8 x)) (absr x)) (< (absr (- x (trunc8 x))) 0.00000001) (=> (>= x 0.0) (>= (trunc8 x) 0.0)) (=> (<= x 0.0) (<= (trunc8 x) 0.0))) :pattern ((trunc8 x)))))
-(assert (forall ((x Real)) (! (= (trunc8 (- x)) (- (trunc8 x))) :pattern ((trunc8 (- x))))))
-(assert (forall ((x Real)) (! (= (trunc8 (trunc8 x)) (trunc8 x)) :pattern ((trunc8 (trunc8 x))))))
-(assert (= (trunc8 0.0) 0.0))
 `
 
 type SolverResult struct {
@@ -387,3 +382,10 @@ func selOf(sel string, v Term) Term {
 }
 
 var selIndex = map[string]int{}
+
+// Trunc8Decl: decimal Truncate(8) as an uninterpreted function with its axioms (declared on demand).
+const Trunc8Decl = `(declare-fun trunc8 (Real) Real)
+(assert (forall ((x Real)) (! (and (<= (absr (trunc8 x)) (absr x)) (< (absr (- x (trunc8 x))) 0.00000001) (=> (>= x 0.0) (>= (trunc8 x) 0.0)) (=> (<= x 0.0) (<= (trunc8 x) 0.0))) :pattern ((trunc8 x)))))
+(assert (forall ((x Real)) (! (= (trunc8 (- x)) (- (trunc8 x))) :pattern ((trunc8 (- x))))))
+(assert (forall ((x Real)) (! (= (trunc8 (trunc8 x)) (trunc8 x)) :pattern ((trunc8 (trunc8 x))))))
+(assert (= (trunc8 0.0) 0.0))`
